@@ -65,6 +65,10 @@ class Module:
             self.tree = ast.parse(src, filename=rel)
         except SyntaxError as e:  # pragma: no cover
             raise AnalysisError(f"cannot parse {rel}: {e}") from e
+        # locals are identified by how they are bound, not by their spelling (see sa/alpha.py)
+        from . import alpha
+
+        self.renamed_locals = alpha.normalise_module(self.tree, rel) if os.environ.get("VERIF_NO_ALPHA") != "1" else 0
         self.functions: dict[str, FunctionInfo] = {}
         self.classes: dict[str, ClassInfo] = {}
         self.consts: dict[str, ast.AST] = {}
